@@ -30,6 +30,9 @@ func envInt(name string, def int64) int64 {
 }
 
 // Main is the vcheck entry point (parent, child and replay modes).
+// BeforeRun is called in the process that runs a batch (child or replay) before the check starts.
+var BeforeRun func(c *Ctx)
+
 func Main() {
 	prop := flag.String("prop", "", "property id")
 	tier := flag.String("tier", "", "quick|thorough")
@@ -67,6 +70,9 @@ func Main() {
 		}
 		if RaceEnabled {
 			c.Count("race_detector_active_batches", 1)
+		}
+		if BeforeRun != nil {
+			BeforeRun(c)
 		}
 		ch.Run(c)
 		res := c.Result()
@@ -110,6 +116,9 @@ func runReplay(path string) int {
 	c.Only = rf.Index
 	c.Verb = true
 	fmt.Printf("replaying property=%s tier=%s seed=%d batch=%d index=%d (rule %s)\n", rf.Prop, rf.Tier, rf.Seed, rf.Batch, rf.Index, rf.Rule)
+	if BeforeRun != nil {
+		BeforeRun(c)
+	}
 	ch.Run(c)
 	if c.NViol() > 0 {
 		fmt.Printf("VIOLATION property=%s replay=%s\n", rf.Prop, path)
